@@ -28,6 +28,68 @@ func checkC10(c *Ctx, r *Report) {
 		"(*" + pkgProtocol + ".byteReader).UVarint": "advance by the byte count binary.Uvarint consumed",
 	})
 	checkNullableString(m, r)
+	checkHeaderFlexibility(m, r)
+}
+
+// checkHeaderFlexibility (C10.R4): whether a request header carries a tagged-field section is a
+// function of (api key, version) that only kmsg knows. ParseRequestHeader skips header tags exactly
+// under kmsg's own answer for the pair it just read: the skip is guarded by the result of
+// IsFlexible() on the value of kmsg.RequestForKey, with SetVersion applied to that value first. An
+// answer taken from anywhere else (a table, a memo keyed by something narrower than the pair)
+// eats body bytes as header tags, or leaves tags in front of the body, for some pair.
+func checkHeaderFlexibility(m *Module, r *Report) {
+	r.rule("C10.R4", "ParseRequestHeader skips header tagged fields only under kmsg's IsFlexible() for the request of the parsed api key with the parsed version set", 2)
+	fn := needFn(m, r, "C10.R4", pkgProtocol, "ParseRequestHeader")
+	if fn == nil {
+		return
+	}
+	var recvOf func(c *ssa.Call) ssa.Value
+	recvOf = func(c *ssa.Call) ssa.Value {
+		if c.Call.IsInvoke() {
+			return c.Call.Value
+		}
+		if len(c.Call.Args) > 0 {
+			return c.Call.Args[0]
+		}
+		return nil
+	}
+	var flexCall *ssa.Call
+	g := Guard{cl(atomFn("kmsg request.IsFlexible()", func(l Lit) bool {
+		if l.Op != token.ILLEGAL || l.Neg {
+			return false
+		}
+		c, ok := strip(l.X).(*ssa.Call)
+		if !ok || !c.Call.IsInvoke() || c.Call.Method.Name() != "IsFlexible" {
+			return false
+		}
+		if !allOrigins(c.Call.Value, vmCall("github.com/twmb/franz-go/pkg/kmsg.RequestForKey")) {
+			return false
+		}
+		flexCall = c
+		return true
+	}))}
+	n := 0
+	for _, call := range callsIn(fn) {
+		if !strings.HasSuffix(calleeName(call.Common()), "byteReader).SkipTaggedFields") {
+			continue
+		}
+		n++
+		if guardVerdict(m, r, "C10.R4", fmt.Sprintf("ParseRequestHeader header-tag skip #%d is decided by kmsg for this request", n), fn, call.(ssa.Instruction), g) && flexCall != nil {
+			recv := recvOf(flexCall)
+			okSet, path := mustPassBefore(m, fn, flexCall, func(in ssa.Instruction) bool {
+				c, ok := in.(*ssa.Call)
+				return ok && c.Call.IsInvoke() && c.Call.Method.Name() == "SetVersion" && strip(c.Call.Value) == strip(recv)
+			})
+			if okSet {
+				r.ok("C10.R4", "IsFlexible is asked after SetVersion on the same request value", m.Pos(flexCall.Pos()), "")
+			} else {
+				r.viol("C10.R4", "IsFlexible is asked after SetVersion on the same request value", m.Pos(flexCall.Pos()), "IsFlexible can be reached without the parsed version set: "+path)
+			}
+		}
+	}
+	if n == 0 {
+		r.unresolved("C10.R4", "ParseRequestHeader header-tag skip", "no SkipTaggedFields call found")
+	}
 }
 
 // checkNullableString: the header's client id round-trips. (nil, nil) is returned only on the true
